@@ -78,6 +78,16 @@ type Ctx struct {
 	log      *os.File
 	resuming bool
 	perClass map[string]int // samples per class
+	lastCls  string
+	lastT    time.Time
+}
+
+func (c *Ctx) tick(class string) {
+	now := time.Now()
+	if c.lastCls != "" {
+		c.res.Counters["ms."+c.lastCls] += now.Sub(c.lastT).Milliseconds()
+	}
+	c.lastCls, c.lastT = class, now
 }
 
 func NewCtx(cfg Config) *Ctx {
@@ -105,6 +115,9 @@ func (c *Ctx) N(quick, thorough int) int {
 	}
 	return quick
 }
+
+// Hash64 hashes strings (exported for case keys).
+func Hash64(parts ...string) uint64 { return hash64(parts...) }
 
 func hash64(parts ...string) uint64 {
 	h := fnv.New64a()
@@ -150,6 +163,7 @@ func (c *Ctx) Begin(class string, k int) *Case {
 		c.res.Classes[class] = st
 	}
 	st.Cases++
+	c.tick(class)
 	c.mu.Unlock()
 	if c.log != nil {
 		fmt.Fprintf(c.log, "BEGIN %s %d\n", class, k)
@@ -280,6 +294,7 @@ func (c *Ctx) Note(format string, a ...any) {
 func (c *Ctx) Finish() *Result {
 	c.mu.Lock()
 	defer c.mu.Unlock()
+	c.tick("")
 	c.res.Done = true
 	c.res.Hashes = c.res.Hashes[:0]
 	for h := range c.hashes {
